@@ -12270,6 +12270,11 @@ tsk_table_collection_link_ancestors(tsk_table_collection_t *self, tsk_id_t *samp
 
     tsk_memset(&ancestor_mapper, 0, sizeof(ancestor_mapper_t));
 
+    /* The algorithm indexes per-node arrays by the stored edge ids */
+    ret = (int) tsk_table_collection_check_integrity(self, 0);
+    if (ret != 0) {
+        goto out;
+    }
     if (self->edges.metadata_length > 0) {
         ret = tsk_trace_error(TSK_ERR_CANT_PROCESS_EDGES_WITH_METADATA);
         goto out;
@@ -12297,6 +12302,12 @@ tsk_table_collection_ibd_within(const tsk_table_collection_t *self,
     int ret = 0;
     tsk_ibd_finder_t ibd_finder;
 
+    tsk_memset(&ibd_finder, 0, sizeof(ibd_finder));
+    /* The algorithm indexes per-node arrays by the stored edge ids */
+    ret = (int) tsk_table_collection_check_integrity(self, 0);
+    if (ret != 0) {
+        goto out;
+    }
     ret = tsk_identity_segments_init(result, self->nodes.num_rows, options);
     if (ret != 0) {
         goto out;
@@ -12330,6 +12341,12 @@ tsk_table_collection_ibd_between(const tsk_table_collection_t *self,
     int ret = 0;
     tsk_ibd_finder_t ibd_finder;
 
+    tsk_memset(&ibd_finder, 0, sizeof(ibd_finder));
+    /* The algorithm indexes per-node arrays by the stored edge ids */
+    ret = (int) tsk_table_collection_check_integrity(self, 0);
+    if (ret != 0) {
+        goto out;
+    }
     ret = tsk_identity_segments_init(result, self->nodes.num_rows, options);
     if (ret != 0) {
         goto out;
@@ -12752,6 +12769,11 @@ tsk_table_collection_delete_older(
     memset(&mutations, 0, sizeof(mutations));
     memset(&migrations, 0, sizeof(migrations));
 
+    /* node_time[] and mutation_map[] are indexed by the stored ids */
+    ret = (int) tsk_table_collection_check_integrity(self, 0);
+    if (ret != 0) {
+        goto out;
+    }
     ret = tsk_edge_table_copy(&self->edges, &edges, 0);
     if (ret != 0) {
         goto out;
